@@ -52,6 +52,8 @@ def sym_send(inp, part):
     if dest >= 1:
         w.add_node(n, sleeping=(dest == 2))
     buffering = inp.bool("buffering")
+    if w.st.is2() and cmd == 3 and inp.bool("request_outstanding"):
+        w.mark(n)  # the controller's own presentation request for this node is outstanding
     other = None
     if dest == 2 and cmd == 1 and inp.bool("other_parked"):
         # an earlier command for the same child with another value type is already held
@@ -89,6 +91,10 @@ def sym_send(inp, part):
         if held != 1:
             raise Violation("silently-discarded", "send(%r) under %s is neither written nor held" % (expect, v))
         return ["held-1x", cmd]
+    if inp.bool("version_report_before_wake"):
+        k0, v0, w0 = w.feed(M.line(0, 255, 3, 0, 2, v))
+        if k0 != "msg" or w0:
+            raise Violation("version-report-disturbed", "version report before the wake gave %s, writes %r" % (k0, w0))
     wake = (n, 255, 3, 0, 32, "") if v == "2.2" else (n, 255, 3, 0, 22, "10")
     kind, val, writes = w.feed(M.line(*wake))
     if kind != "msg":
